@@ -35,6 +35,7 @@
 package guardalloc
 
 import (
+	"bytes"
 	"fmt"
 	"runtime"
 	"sort"
@@ -93,6 +94,7 @@ type region struct {
 	headerReported bool
 	poisonReported bool
 	retired        bool
+	counted        bool // included in Stats.LiveRegions/LiveBytes
 }
 
 // Report is one ownership violation.
@@ -259,6 +261,7 @@ func (a *Allocator) newRegion(n int, skip int) (*region, []byte) {
 	runtime.Callers(skip+1, r.alloc[:])
 	a.insert(r)
 	a.thisCase = append(a.thisCase, r)
+	r.counted = true
 	a.st.LiveRegions++
 	a.st.LiveBytes += int64(c)
 	if a.st.LiveRegions > a.st.PeakLiveRegions {
@@ -268,6 +271,14 @@ func (a *Allocator) newRegion(n int, skip int) (*region, []byte) {
 		a.st.PeakLiveBytes = a.st.LiveBytes
 	}
 	return r, r.mem[:n:c]
+}
+
+func (a *Allocator) uncount(r *region) {
+	if r.counted {
+		r.counted = false
+		a.st.LiveRegions--
+		a.st.LiveBytes -= int64(r.size)
+	}
 }
 
 func fill(b []byte, v byte) {
@@ -431,7 +442,9 @@ func (a *Allocator) Realloc(p *[]byte, size int) *[]byte {
 	_, nb := a.newRegion(size, 2)
 	a.st.Grows++
 	a.mu.Unlock()
-	copy(nb, *p)
+	if !(a.o.Fault && len(reps) > 0) {
+		copy(nb, *p)
+	}
 	np := new([]byte)
 	*np = nb
 	a.deliver(reps)
@@ -484,18 +497,22 @@ func (a *Allocator) appendBytes(p *[]byte, mb []byte, ms string) *[]byte {
 		nb = nb[:len(*p)]
 		copy(nb, *p)
 		r.st = stAbandoned
-		a.st.LiveRegions--
-		a.st.LiveBytes -= int64(r.size)
+		a.uncount(r)
 		*p = nb
 	}
-	a.mu.Unlock()
-	// what every real pool does; on a freed region this scribbles over the
-	// poison exactly like the real code scribbles over the next owner's data
-	// (the sweep then skips the region: it has been reported already)
 	if r != nil && r.st == stFreed {
+		// The append below is what every real pool does; on a freed region it
+		// scribbles over the poison exactly like the real code scribbles over
+		// the next owner's data. The sweep skips the region: it has been
+		// reported already.
 		r.poisonReported = true
 		r.headerReported = true
+		if a.o.Fault {
+			// the pages are inaccessible: continue on a detached copy
+			*p = make([]byte, len(*p), len(*p)+nmore)
+		}
 	}
+	a.mu.Unlock()
 	if mb != nil {
 		*p = append(*p, mb...)
 	} else {
@@ -540,8 +557,7 @@ func (a *Allocator) Free(p *[]byte) {
 		r.caseN = a.caseN
 		r.fhdr = p
 		r.fptr, r.flen, r.fcap = bp, len(*p), cap(*p)
-		a.st.LiveRegions--
-		a.st.LiveBytes -= int64(r.size)
+		a.uncount(r)
 		if a.o.Fault {
 			faultProtect(r.mmap)
 		} else {
@@ -601,6 +617,9 @@ func (a *Allocator) check(r *region, reps []Report) []Report {
 	}
 	if !a.o.Fault && !r.poisonReported {
 		a.st.SweptBytes += int64(r.size)
+		if r.mem[0] == a.o.Poison && bytes.Equal(r.mem[1:], r.mem[:len(r.mem)-1]) {
+			goto HEADER
+		}
 		for i, c := range r.mem {
 			if c != a.o.Poison {
 				j := i
@@ -620,6 +639,7 @@ func (a *Allocator) check(r *region, reps []Report) []Report {
 			}
 		}
 	}
+HEADER:
 	if !r.headerReported && r.fhdr != nil {
 		if bp := basePtr(*r.fhdr); (cap(*r.fhdr) != 0 && bp != r.fptr) || len(*r.fhdr) != r.flen || cap(*r.fhdr) != r.fcap {
 			r.headerReported = true
@@ -645,13 +665,12 @@ func (a *Allocator) evict(reps []Report) []Report {
 		a.fifoHead++
 		a.fifoSize -= r.size
 		reps = a.check(r, reps)
-		if r.st == stLive {
-			a.st.LiveRegions--
-			a.st.LiveBytes -= int64(r.size)
-		}
+		a.uncount(r)
 		a.remove(r)
 		a.st.Evicted++
-		if a.o.Fault {
+		if a.o.Fault && r.st == stFreed {
+			// live (leaked) and abandoned mappings stay mapped for ever: the
+			// code under test may still use them legitimately
 			faultRelease(r.mmap)
 		}
 		r.mem, r.mmap, r.fhdr = nil, nil, nil
@@ -690,6 +709,7 @@ func (a *Allocator) EndCase() CaseStats {
 				cs.LeakSites = append(cs.LeakSites, a.site(&r.alloc))
 			}
 			a.st.Leaked++
+			a.uncount(r)
 		}
 		a.retire(r)
 	}
